@@ -33,7 +33,7 @@ ASSUMPTIONS = [
     "as_obj is modelled top-down: a payload position whose id is registered yields the registered object and its payload subtree is not visited",
     "at digest sizes 1 and 2 only the un-suffixed part of a fresh id is required to be deterministic (different contents collide)",
 ]
-MUST_SEE = ["id_determinism_checks_with_occupied_neighbours", 
+MUST_SEE = ["replace_without_changes", "id_determinism_checks_with_occupied_neighbours", 
     "op_detach_stale_with_live_twin", "op_replace_fail", "drops", "suffix_ge_2", "detach_depth_ge2", "asobj_recreated",
     "asobj_reused", "digest1_histories", "dead_weakrefs_checked", "replace_on_stale", "id_determinism_checks", "replace_fail_after_registration",
 ]
@@ -271,10 +271,17 @@ class History:
                 ch[f.name] = G.gen_value(rng, U, f, hostile=0.0)
             else:
                 ch["origin"] = O.build_origin(rng.choice(origs))
+            if rng.random() < 0.12:
+                ch = {}  # replace() with nothing to change is a replace like any other: a new node takes the place
+                ctx.count("replace_without_changes")
             self.log.append((op, n.id, sorted(ch), "stale" if stale else "live"))
             if stale:
                 ctx.count("replace_on_stale")
             new = n.replace(**ch)
+            if new is n:
+                # (C14 says a new node is returned; for the registry it only matters that a node handed back to the
+                # caller as the result is not at the same time treated as replaced away: the model leaves it as it was)
+                return op
             self.model.unregister(n)
             self.handles.append(new)
             self.note_new([new], op)
